@@ -276,6 +276,22 @@ func scenarioC04(c *hlib.RunCtx) *hlib.Violation {
 			}
 		})
 	}
+	// Sometimes the week ends while the processes are at work: all of them
+	// rotate at about the same moment and race to create next week's file.
+	if t.Bool(1, 6) && foreign == nil { // (a foreign opener that creates next week's file first is the excluded case)
+		s.Spawn(w.procs[0].p, "clock", func() {
+			simrt.Yield("clock:wait")
+			s.Advance(8 * 24 * time.Hour)
+			s.Probe("week-ends-for-all")
+			for _, p := range w.procs {
+				p := p
+				if p.foreign || p.p.Dead() {
+					continue
+				}
+				s.Spawn(p.p, fmt.Sprintf("p%d.rotate", p.p.ID), func() { enterAdd(); p.f.VerifRotate1(); leaveAdd() })
+			}
+		})
+	}
 	if s.MaxSteps > 300000 {
 		s.MaxSteps = 300000
 	}
